@@ -134,6 +134,11 @@ func c12Commands(thorough bool) []c12Cmd {
 		{"write-event", []string{"write", "event"}, c12Doc1},
 		{"write-parse", []string{"write", "parse"}, c12Doc1},
 		{"write-conv", []string{"write", "conv", "-c", "cmt"}, c12Doc1},
+		// inputs larger than a read buffer
+		{"text-conv-degree-large", []string{"text", "conv", "degree"}, strings.Repeat("3bm7/5[1,1/2]{txt=a b} 1[2] ", 400)},
+		{"text-parse-large", []string{"text", "parse"}, strings.Repeat("C#m7/E[1] R[2] ", 700)},
+		{"write-large", []string{"write", "--track", "2"}, strings.Repeat(c12Doc1, 40)},
+		{"write-conv-large", []string{"write", "conv", "-c", "cmt"}, strings.Repeat(c12Doc1, 40)},
 	}
 	keys := []string{"C", "Ebm", "F#", "Cb", "G#m", "Db"}
 	if thorough {
